@@ -10,7 +10,9 @@
 #include <stdbool.h>
 
 static const char* primes[] = { "2", "3", "5", "7", "11", "13", "101", "997", "1009", "10007",
-  "2305843009213693951", "618970019642690137449562111" };
+  "2305843009213693951", "618970019642690137449562111",
+  /* primes that fit an unsigned long but not a long: 2^63 + 29, 2^64 - 59 */
+  "9223372036854775837", "18446744073709551557" };
 #define NPR (sizeof primes / sizeof primes[0])
 static lp_int_ring_t* rings[NPR];
 
@@ -108,6 +110,7 @@ static void exhaustive_case(int ri, long idx) {
 static lp_feasibility_set_int_t* random_set(int ri, const lp_integer_t* pool, size_t npool) {
   size_t n = rnd(chance(70) ? 6 : 14);
   if (ri <= 5 && chance(30)) n = rnd(atol(primes[ri]) + 1);
+  if (ri >= (int)NPR - 2 && chance(60)) n = rnd(31);      /* sizes around the low bits of the 64-bit primes */
   lp_integer_t el[32];
   for (size_t i = 0; i < n; ++i) lp_integer_construct_copy(lp_Z, &el[i], &pool[rnd(npool)]);
   lp_feasibility_set_int_t* s = lp_feasibility_set_int_new_from_integer(rings[ri], el, n, rnd(2));
@@ -117,7 +120,7 @@ static lp_feasibility_set_int_t* random_set(int ri, const lp_integer_t* pool, si
 
 static void random_case(void) {
   int ri = 3 + (int)rnd(NPR - 3);
-  lp_integer_t pool[20]; size_t npool = 6 + rnd(14);
+  lp_integer_t pool[40]; size_t npool = 6 + rnd(14); if (ri >= (int)NPR - 2) npool = 20 + rnd(20);
   const lp_int_ring_t* K = rings[ri];
   for (size_t i = 0; i < npool; ++i) {
     lp_integer_construct(&pool[i]);
